@@ -68,6 +68,20 @@ def cases_for(rng, tier):
     texts.append("mem_addr = 0; pc = 0; Stat = 1;\n")
     texts.append("mem_addr = 0; mem_input = 1; pc = 0; Stat = 1;\n")
     texts.append("reg_dstE = 0; pc = 0; Stat = 1;\nreg_dstM = 1;\n")
+    # deep but VALID texts: nothing may take more than a moment
+    for dpt in (24, 64, 150):
+        mux = "1"
+        for _ in range(dpt):
+            mux = "[ 1 : %s; ]" % mux
+        texts.append("const DEEP = %s;\npc = 0; Stat = 1;\n" % mux)
+        texts.append("wire dw : 8; dw = %s;\npc = 0; Stat = 1;\n" % mux.replace("1 :", "pc == 0 : 1; 1 :", 1))
+        texts.append("register xY { a : 8 = %s; } x_a = Y_a; pc = 0; Stat = 1;\n" % mux)
+        texts.append("const PAR = %s1%s;\npc = 0; Stat = 1;\n" % ("(" * dpt, ")" * dpt))
+        texts.append("const UN = %s1;\npc = 0; Stat = 1;\n" % ("-~!" * dpt))
+        texts.append("const SUM = %s1;\npc = 0; Stat = 1;\n" % ("1 + " * (8 * dpt)))
+        texts.append("wire sl : 1; sl = (pc%s == 0);\npc = 0; Stat = 1;\n" % ("[0..64]" * dpt))
+        texts.append("const INS = %s1%s;\npc = 0; Stat = 1;\n" % ("(1 in { " * dpt, " })" * dpt))
+        texts.append("const CAT = %s0b1%s;\npc = 0; Stat = 1;\n" % ("(" * min(dpt, 100), " .. 0b1)" * min(dpt, 100)))
     # constant expressions (evaluated while building)
     for e in ["-0", "1/0", "0b11[3..1]", "0b11[0..5]", "(0b1 .. %s)" % ("0b" + "1" * 128), "(%s .. %s)" % ("0b" + "1" * 128, "0b" + "1" * 128), "1 << 200", "~0 + 1",
               "[ 1/0 : 1; 1 : 2 ]", "K", "K2 + 1", "0b1 & 0b11", "3[128..128]", "-(0b0)", "!(0b1[0..0])", "1 in { 1/0 }"]:
